@@ -183,6 +183,8 @@ class FindModel(Model):
                 return l[1]
         if k == "For":
             it = self.ev(n0["iter"], env)
+            if isinstance(it, tuple) and it and it[0] == "seq":
+                it = It(it[1])
             if isinstance(it, It):
                 from tri import Brk, Cont
                 while it.items:
